@@ -6,6 +6,8 @@
 From Coq Require Import String List ZArith Reals QArith Qreals.
 From QV Require Import AutoQ.Limits AutoQ.Search AutoQ.Forgiving AutoQ.Size Link.LimitLink.
 From QVGen Require Import LimitGen.
+From QVGen Require SizeGen.
+From QV Require Link.SizeLink.
 Import ListNotations.
 Open Scope string_scope.
 
@@ -160,3 +162,25 @@ Proof. intros. rewrite link_pad_limit. apply pad_limit_roles; assumption. Qed.
 Print Assumptions C20_source_short_limit_padded_by_role.
 Theorem C20_source_class_lists : gen_registered = registered /\ gen_sequence = sequence_layers.
 Proof. split; [exact link_registered | exact link_sequence]. Qed.
+
+(* ---- ForgivingFactorBits._act_size as /repo has it now (coq/gen/SizeGen.v, regenerated on every run) ---- *)
+Theorem C20_size_translation_ok : SizeGen.size_translation_ok = true.
+Proof. exact SizeLink.link_size_ok. Qed.
+(* for every layer kind and every kind of activation object: whenever the code returns a size, it is elements x bits of the quantizer
+   applied -- the reference width where none is applied *)
+Theorem C20_code_activation_size_is_the_model : forall k a w out r,
+  SizeGen.gen_act_size k a (w_in w) (w_out w) (w_ref w) out = Some r -> r = act_size_of k a w out.
+Proof. exact SizeLink.link_act_size. Qed.
+Print Assumptions C20_code_activation_size_is_the_model.
+Theorem C20_code_quantizer_objects_are_sized : forall b w out,
+  SizeGen.gen_act_size KQuantized (DQuantObj b) (w_in w) (w_out w) (w_ref w) out = Some (bits_or (w_ref w) b * out)%Z /\
+  SizeGen.gen_act_size KActivation (DQuantObj b) (w_in w) (w_out w) (w_ref w) out = Some (bits_or (w_ref w) b * out)%Z /\
+  SizeGen.gen_act_size KActivation (DQuantStr b) (w_in w) (w_out w) (w_ref w) out = Some (bits_or (w_ref w) b * out)%Z.
+Proof. exact SizeLink.link_quantizer_objects_are_sized. Qed.
+Print Assumptions C20_code_quantizer_objects_are_sized.
+Theorem C20_code_fused_plain_activation_reference_width : forall w out,
+  SizeGen.gen_act_size KQuantized (DFunc NSigmoid) (w_in w) (w_out w) (w_ref w) out = Some (w_ref w * out)%Z /\
+  SizeGen.gen_act_size KQuantized (DFunc NOther) (w_in w) (w_out w) (w_ref w) out = Some (w_ref w * out)%Z /\
+  SizeGen.gen_act_size KQuantized (DFunc NSoftmax) (w_in w) (w_out w) (w_ref w) out = Some (w_out w * out)%Z.
+Proof. exact SizeLink.link_fused_plain_activation_reference_width. Qed.
+Print Assumptions C20_code_fused_plain_activation_reference_width.
